@@ -439,7 +439,9 @@ func (g *gen) mutate(root *N) (kind, path string, jsonOnly, mpOnly bool) {
 			s.parent.Del(kv.K)
 			return "delete-key", path, false, false
 		case 1:
-			kv.K = strings.ToUpper(kv.K[:1]) + kv.K[1:]
+			if kv.K != "" {
+				kv.K = strings.ToUpper(kv.K[:1]) + kv.K[1:]
+			}
 			return "key-case", path, false, false
 		case 2:
 			kv.K = vh.Pick(g.r, strPool)
